@@ -165,7 +165,19 @@ func (bt *Tree) Copy() *Tree {
 		nodes = nodes[1:]
 		nodeCopies = nodeCopies[1:]
 		for _, e := range n.edges {
-			cpt := &node{key: e.target.key, data: e.target.data}
+			// Copy the sequences too: the original tree updates them in place (and
+			// replaces entries of the data slice), so a copy that shares them keeps
+			// changing while it is being read.
+			var data []encoding.Sequence
+			if e.target.data != nil {
+				data = make([]encoding.Sequence, len(e.target.data))
+				for i, seq := range e.target.data {
+					if seq != nil {
+						data[i] = append(encoding.Sequence(nil), seq...)
+					}
+				}
+			}
+			cpt := &node{key: e.target.key, data: data}
 			cpn.edges = append(cpn.edges, &edge{label: e.label, target: cpt})
 			nodes = append(nodes, e.target)
 			nodeCopies = append(nodeCopies, cpt)
